@@ -458,6 +458,7 @@ fn gen_xop(rng: &mut Rng, c: &Case) -> XOp {
 }
 
 fn run_case(thin: bool, ops: &[XOp], gen: Option<(&mut Rng, usize)>, pan: Option<u64>, sum: &mut Summary, w: &mut CaseWriter, desc: &str) -> u64 {
+    breadcrumb(&format!("vec {} kind={} pan={:?} fixed-ops={:?}", desc, if thin { "thin" } else { "inline7" }, pan, ops.iter().map(|o| o.coq()).collect::<Vec<_>>()));
     reg(|r| { *r = Registry::default(); r.pan = pan; });
     alloc::reset_window_counters();
     let base = alloc::snap();
@@ -473,6 +474,9 @@ fn run_case(thin: bool, ops: &[XOp], gen: Option<(&mut Rng, usize)>, pan: Option
         k += 1;
         let prev = alloc::snap();
         let err_before = prev.errors;
+        trace.push(format!("{} -> ?", op.coq()));
+        breadcrumb(&format!("vec {} kind={} pan={:?}: {}", desc, if thin { "thin" } else { "inline7" }, pan, trace.join(" ; ")));
+        trace.pop();
         let out = c.exec(&op);
         alloc::set_window(false);
         if reg(|r| r.pan.is_none()) && pan.is_some() { c.injected = true; }
@@ -514,7 +518,58 @@ fn corpus() -> Vec<Vec<XOp>> {
     ]
 }
 
-pub fn run(out_dir: &Path, tier: &str, seed: u64, _rest: &[String]) {
+/// C14 extra (oracle only, not modelled): zero-sized and over-aligned element types, heap-owning elements, and a droppable
+/// ThinVec prefix, through a fixed battery of operations against `Vec`, under the allocator monitor.
+fn extra_types(sum: &mut Summary) {
+    breadcrumb("vec extra-types battery (zero-sized / align(64) / Box / Vec elements, droppable ThinVec prefix)");
+    use std::sync::atomic::{AtomicUsize, Ordering};
+    static NEW: AtomicUsize = AtomicUsize::new(0);
+    static DROPPED: AtomicUsize = AtomicUsize::new(0);
+    #[derive(Clone, Debug, PartialEq)] struct Zst;
+    #[derive(Clone, Debug, PartialEq)] #[repr(align(64))] struct Big(u8);
+    struct Pfx(Box<u32>);
+    impl Default for Pfx { fn default() -> Self { NEW.fetch_add(1, Ordering::SeqCst); Pfx(Box::new(7)) } }
+    impl Drop for Pfx { fn drop(&mut self) { if *self.0 != 7 { DROPPED.fetch_add(1000, Ordering::SeqCst); } DROPPED.fetch_add(1, Ordering::SeqCst); } }
+    macro_rules! battery { ($mk:expr, $v:expr, $name:expr) => {{
+        let before = alloc::snap().errors;
+        let r = quiet_catch(AssertUnwindSafe(|| {
+            let mut t: ThinVec<_, Reserved> = ThinVec::new();
+            let mut o = Vec::new();
+            for i in 0..40u8 { t.push($mk(i)); o.push($mk(i)); }
+            t.insert(3, $mk(99)); o.insert(3, $mk(99));
+            let a = t.remove(0); let b = o.remove(0); assert!(a == b);
+            let a = t.swap_remove(5); let b = o.swap_remove(5); assert!(a == b);
+            t.extend_from_within(2..9); o.extend_from_within(2..9);
+            let d1: Vec<_> = t.drain(4..10).collect(); let d2: Vec<_> = o.drain(4..10).collect(); assert!(d1 == d2);
+            let s1 = t.split_off(7); let s2 = o.split_off(7); assert!(s1.as_slice() == &s2[..]);
+            t.truncate(3); o.truncate(3); t.resize(6, $mk(1)); o.resize(6, $mk(1)); t.shrink_to_fit(); t.reserve(100);
+            assert!(t.as_slice() == &o[..]);
+            let mut iv: InlineVec<_, 9> = InlineVec::new();
+            for i in 0..9u8 { iv.push($mk(i)); }
+            let c = iv.clone(); assert!(c.as_slice() == iv.as_slice());
+            let back: Vec<_> = iv.into_iter().rev().collect(); assert!(back.len() == 9);
+            let tv: ThinVec<_, Reserved> = ThinVec::from(c); assert!(tv.len() == 9);
+        }));
+        sum.evaluations += 1;
+        if let Err(m) = r { sum.violation(format!("{{\"what\":{},\"observed\":{},\"expected\":\"same as Vec\"}}", jstr(&format!("vec extra-types battery {}", $name)), jstr(&m))); }
+        if alloc::snap().errors != before { sum.violation(format!("{{\"what\":{},\"observed\":{},\"expected\":\"clean allocator\"}}", jstr(&format!("vec extra-types battery {}", $name)), jstr(&alloc::error_detail()))); }
+    }}; }
+    battery!(|_i: u8| Zst, 0, "zero-sized");
+    battery!(|i: u8| Big(i), 0, "align(64)");
+    battery!(|i: u8| Box::new(i as u64), 0, "Box<u64>");
+    battery!(|i: u8| vec![i; (i % 5) as usize], 0, "Vec<u8>");
+    // droppable prefix: written once at construction, dropped once with the vector, never dropped uninitialised
+    let before = alloc::snap().errors;
+    { let mut v: ThinVec<u32, Pfx> = ThinVec::new(); for i in 0..100 { v.push(i); } assert_eq!(*v.prefix().0, 7); let w = v.split_off(50); assert_eq!(*w.prefix().0, 7); }
+    sum.evaluations += 1;
+    let (n, d) = (NEW.load(Ordering::SeqCst), DROPPED.load(Ordering::SeqCst));
+    if n != d || alloc::snap().errors != before { sum.violation(format!("{{\"what\":\"vec ThinVec droppable prefix\",\"observed\":{},\"expected\":\"created == dropped, intact\"}}", jstr(&format!("created {} dropped {} allocator {}", n, d, alloc::error_detail())))); }
+}
+
+pub fn run(out_dir: &Path, tier: &str, seed: u64, rest: &[String]) {
+    let focus = rest.iter().find_map(|a| a.strip_prefix("focus=")).unwrap_or("panic").to_string();
+    let inject = focus == "panic";
+    let seed = seed.wrapping_add(match focus.as_str() { "refine" => 11, "life" => 22, _ => 0 });
     silence_panics();
     let mut sum = Summary::default();
     let header = "From Hip Require Import Base Range VecModel CasesVec.\n";
@@ -525,16 +580,16 @@ pub fn run(out_dir: &Path, tier: &str, seed: u64, _rest: &[String]) {
         for (ci, seq) in corpus().iter().enumerate() {
             let total = run_case(thin, seq, None, None, &mut sum, &mut w, &format!("corpus#{}", ci));
             // fault enumeration: every callback position of the un-injected run
-            for p in 0..total { run_case(thin, seq, None, Some(p), &mut sum, &mut w, &format!("corpus#{}@{}", ci, p)); n_inj += 1; }
+            if inject { for p in 0..total { run_case(thin, seq, None, Some(p), &mut sum, &mut w, &format!("corpus#{}@{}", ci, p)); n_inj += 1; } }
         }
-        let n_cases = if thorough { 300 } else { 40 };
+        let n_cases = if thorough { 300 } else if inject { 40 } else { 120 };
         for cidx in 0..n_cases {
             let s0 = seed.wrapping_mul(7_777_777).wrapping_add(cidx as u64 * 104729 + thin as u64);
             let n_ops = 8 + Rng::new(s0).below(if thorough { 30 } else { 16 });
             let mut rng = Rng::new(s0);
             let total = run_case(thin, &[], Some((&mut rng, n_ops)), None, &mut sum, &mut w, &format!("random#{}", cidx));
             // sampled fault positions (all of them for short runs)
-            let positions: Vec<u64> = if total <= 12 || thorough { (0..total).collect() } else { let mut r2 = Rng::new(s0 ^ 0xABCD); (0..6).map(|_| r2.below(total as usize) as u64).collect() };
+            let positions: Vec<u64> = if !inject { vec![] } else if total <= 12 || thorough { (0..total).collect() } else { let mut r2 = Rng::new(s0 ^ 0xABCD); (0..6).map(|_| r2.below(total as usize) as u64).collect() };
             for p in positions {
                 let mut rng = Rng::new(s0);
                 run_case(thin, &[], Some((&mut rng, n_ops)), Some(p), &mut sum, &mut w, &format!("random#{}@{}", cidx, p));
@@ -542,6 +597,7 @@ pub fn run(out_dir: &Path, tier: &str, seed: u64, _rest: &[String]) {
             }
         }
     }
+    if focus == "life" { extra_types(&mut sum); }
     w.flush();
     sum.files = w.files.clone();
     sum.notes.push(format!("profile={} injected_runs={} allocator_errors={}", profile(), n_inj, alloc::error_detail()));
